@@ -353,7 +353,13 @@ fn sec_panning(s: &mut Session, cx: &Ctx, rng: &mut Rng, n: usize) {
 		let pc = (p as f64).clamp(-1.0, 1.0);
 		let (gl, gr) = ((1.0 - pc).sqrt(), (1.0 + pc).sqrt());
 		for (x, y) in input.iter().zip(out.iter()) {
-			if !(close(y.left as f64, x.left as f64 * gl, 1e-6, 1e-30) && close(y.right as f64, x.right as f64 * gr, 1e-6, 1e-30)) {
+			// compared in the power domain: 1 - m is rounded to binary32 before the square root, so next to a
+			// hard pan the small gain carries an absolute (not relative) rounding error
+			let pw_ok = |y: f32, x: f32, g: f64| -> bool {
+				let (y, x) = (y as f64, x as f64);
+				(y * y - x * x * g * g).abs() <= 1e-6 * x * x + 1e-30 && (y == 0.0 || x * g == 0.0 || (y > 0.0) == (x > 0.0))
+			};
+			if !(pw_ok(y.left, x.left, gl) && pw_ok(y.right, x.right, gr)) {
 				s.fail(format!("{:?} @ {} Hz", d, sr), format!("panning: in {:?} out {:?}, equal-power gains ({gl}, {gr})", x, y), None);
 			}
 		}
@@ -609,6 +615,607 @@ fn sec_traces(s: &mut Session, cx: &Ctx, rng: &mut Rng, per_kind: usize) {
 	}
 }
 
+// ------------------------------------------------------------------ frequency responses (filter, EQ)
+
+#[derive(Clone, Copy, Debug)]
+struct Cx {
+	re: f64,
+	im: f64,
+}
+impl Cx {
+	fn new(re: f64, im: f64) -> Cx {
+		Cx { re, im }
+	}
+	fn add(self, o: Cx) -> Cx {
+		Cx::new(self.re + o.re, self.im + o.im)
+	}
+	fn sub(self, o: Cx) -> Cx {
+		Cx::new(self.re - o.re, self.im - o.im)
+	}
+	fn mul(self, o: Cx) -> Cx {
+		Cx::new(self.re * o.re - self.im * o.im, self.re * o.im + self.im * o.re)
+	}
+	fn scale(self, k: f64) -> Cx {
+		Cx::new(self.re * k, self.im * k)
+	}
+	fn div(self, o: Cx) -> Cx {
+		let d = o.re * o.re + o.im * o.im;
+		Cx::new((self.re * o.re + self.im * o.im) / d, (self.im * o.re - self.re * o.im) / d)
+	}
+	fn abs(self) -> f64 {
+		self.re.hypot(self.im)
+	}
+}
+const ONE: Cx = Cx { re: 1.0, im: 0.0 };
+
+/// textbook response of the state-variable filter: analog prototype at s = i * Omega,
+/// Omega = tan(pi f / fs) / tan(pi fc / fs) (bilinear transform with pre-warping), damping k
+fn spec_filter(mode: u8, fc: f64, k: f64, sr: f64, f: f64) -> Cx {
+	let pi = std::f64::consts::PI;
+	let om = (pi * f / sr).tan() / (pi * fc / sr).tan();
+	let s = Cx::new(0.0, om);
+	let den = s.mul(s).add(s.scale(k)).add(ONE);
+	match mode {
+		0 => ONE.div(den),
+		1 => s.div(den),
+		2 => s.mul(s).div(den),
+		_ => s.mul(s).add(ONE).div(den),
+	}
+}
+/// Audio-EQ-Cookbook prototypes (peaking / low shelf / high shelf), A = 10^(dB/40)
+fn spec_eq(kind: u8, fc: f64, gain_db: f64, q: f64, sr: f64, f: f64) -> Cx {
+	let pi = std::f64::consts::PI;
+	let om = (pi * f / sr).tan() / (pi * fc / sr).tan();
+	let s = Cx::new(0.0, om);
+	let a = 10f64.powf(gain_db / 40.0);
+	let ra = a.sqrt();
+	let s2 = s.mul(s);
+	match kind {
+		0 => s2.add(s.scale(a / q)).add(ONE).div(s2.add(s.scale(1.0 / (a * q))).add(ONE)),
+		1 => s2.add(s.scale(ra / q)).add(ONE.scale(a)).scale(a).div(s2.scale(a).add(s.scale(ra / q)).add(ONE)),
+		_ => s2.scale(a).add(s.scale(ra / q)).add(ONE).scale(a).div(s2.add(s.scale(ra / q)).add(ONE.scale(a))),
+	}
+}
+
+/// measured response from the impulse response: H(e^{i theta}) = sum_n h[n] e^{-i n theta};
+/// returns the responses at the probe frequencies and the size of the tail that was cut off
+fn measure_ir(cx: &Ctx, d: &Desc, sr: u32, n: usize, probes: &[f64]) -> Option<(Vec<Cx>, f64)> {
+	let mut input = vec![Frame::ZERO; n];
+	input[0] = Frame::new(1.0, 1.0);
+	let out = match run_effect(cx, d, sr, &input) {
+		Outcome::Ok(v) => v,
+		_ => return None,
+	};
+	let mut res = vec![];
+	for &f in probes {
+		let th = 2.0 * std::f64::consts::PI * f / sr as f64;
+		// Goertzel-free direct sum with a recurrence for e^{-i n theta} re-seeded regularly
+		let (mut re, mut im) = (0.0f64, 0.0f64);
+		for (i, fr) in out.iter().enumerate() {
+			let h = fr.left as f64;
+			if h != 0.0 {
+				let ph = th * i as f64;
+				re += h * ph.cos();
+				im -= h * ph.sin();
+			}
+		}
+		res.push(Cx::new(re, im));
+	}
+	let tail = out[n - n / 16..].iter().map(|f| (f.left as f64).abs()).fold(0.0, f64::max);
+	Some((res, tail))
+}
+
+/// measured steady-state response to a sine: left = cos, right = sin of the same phase (a complex
+/// exponential); the effect treats the channels alike, so out_l + i out_r = H e^{i n theta} once the
+/// transient is gone; averaged over the measuring window
+fn measure_sine(cx: &Ctx, d: &Desc, sr: u32, f: f64, warm: usize, win: usize) -> Option<Cx> {
+	let th = 2.0 * std::f64::consts::PI * f / sr as f64;
+	let amp = 0.5f64;
+	let input: Vec<Frame> = (0..warm + win).map(|i| Frame::new((amp * (th * i as f64).cos()) as f32, (amp * (th * i as f64).sin()) as f32)).collect();
+	let out = match run_effect(cx, d, sr, &input) {
+		Outcome::Ok(v) => v,
+		_ => return None,
+	};
+	let mut acc = Cx::new(0.0, 0.0);
+	for i in warm..warm + win {
+		let y = Cx::new(out[i].left as f64, out[i].right as f64);
+		// the rounded input actually fed in
+		let x = Cx::new(input[i].left as f64, input[i].right as f64);
+		acc = acc.add(y.div(x));
+	}
+	Some(acc.scale(1.0 / win as f64))
+}
+
+fn probe_freqs(r: &mut Rng, sr: u32, fc: f64, n: usize) -> Vec<f64> {
+	let ny = sr as f64 / 2.0;
+	let mut v = vec![10.0, fc, fc * 0.5, (fc * 2.0).min(ny * 0.98), ny * 0.5, ny * 0.9, ny * 0.999];
+	for _ in 0..n {
+		// log-uniform between 10 Hz and Nyquist
+		v.push(10.0 * (ny / 10.0).powf(r.unit_f64()));
+	}
+	v.retain(|f| *f >= 10.0 && *f < ny);
+	v
+}
+
+/// how long the impulse response must be recorded: the slowest pole pair of the prototype decays like
+/// exp(-min(k/2, 1/k...) * w0 * t); generous factor, capped
+fn ir_len(sr: u32, fc: f64, k: f64) -> usize {
+	let w0 = 2.0 * std::f64::consts::PI * fc;
+	// poles of s^2 + k s + 1: real part -k/2 (complex pair) or the slow real pole (k - sqrt(k^2-4))/2
+	let sigma = if k < 2.0 { k / 2.0 } else { (k - (k * k - 4.0).sqrt()) / 2.0 };
+	let tau = 1.0 / (sigma.max(1e-3) * w0);
+	((tau * 24.0 * sr as f64) as usize + 4096).min(3_000_000)
+}
+
+struct RespStats {
+	worst_rel: f64,
+	worst_at: String,
+	count: u64,
+}
+
+fn check_response(s: &mut Session, st: &mut RespStats, what: &str, desc: &str, f: f64, meas: Cx, spec: Cx, tol_rel: f64, tol_abs: f64) {
+	let err = meas.sub(spec).abs();
+	let scale = spec.abs();
+	st.count += 1;
+	let rel = err / (scale + tol_abs / tol_rel);
+	if rel > st.worst_rel {
+		st.worst_rel = rel;
+		st.worst_at = format!("{desc} at {f:.3} Hz ({what})");
+	}
+	if !(err <= tol_rel * scale + tol_abs) {
+		s.fail(
+			desc.to_string(),
+			format!("{what}: measured response at {f:.4} Hz is {:.6}{:+.6}i (|H| = {:.6}), the cited design gives {:.6}{:+.6}i (|H| = {:.6}); |difference| = {:.3e} > {:.1e} |H| + {:.1e}", meas.re, meas.im, meas.abs(), spec.re, spec.im, scale, err, tol_rel, tol_abs),
+			None,
+		);
+	}
+}
+
+fn sec_filter_response(s: &mut Session, cx: &Ctx, rng: &mut Rng, n_cfg: usize, n_sine: usize) {
+	let mut st = RespStats { worst_rel: 0.0, worst_at: String::new(), count: 0 };
+	for i in 0..n_cfg {
+		let sr = if i < RATES.len() { RATES[i] } else { gen_sr(rng) };
+		let ny = sr as f64 / 2.0;
+		// requested cutoff: 30 Hz .. 0.45 fs, log-uniform (documented range; the code clamps fc/fs to [1e-4, 0.5])
+		let fc = (30.0 * (ny * 0.9 / 30.0).powf(rng.unit_f64())).max(sr as f64 * 2e-4);
+		let res = match i % 4 {
+			0 => 0.0,
+			1 => rng.unit_f64() * 0.5,
+			2 => 0.5 + rng.unit_f64() * 0.45,
+			_ => rng.unit_f64(),
+		};
+		let k = 2.0 - 1.9 * res;
+		let mode = (i % 4) as u8;
+		let d = Filter { mode, cutoff: fc, res, mix: 1.0 };
+		let desc = format!("{:?} @ {} Hz", d, sr);
+		let probes = probe_freqs(rng, sr, fc, 6);
+		let n = ir_len(sr, fc, k);
+		s.eval_only("mon_filter_response_ir");
+		match measure_ir(cx, &d, sr, n, &probes) {
+			Some((hs, tail)) => {
+				if !(tail <= 1e-6) {
+					s.notes.push(format!("{desc}: impulse response not decayed after {n} frames (tail {tail:e}); response not compared"));
+					continue;
+				}
+				for (f, h) in probes.iter().zip(hs.iter()) {
+					check_response(s, &mut st, "impulse-response DFT", &desc, *f, *h, spec_filter(mode, fc, k, sr as f64, *f), 1e-3, 2e-4);
+				}
+			}
+			None => s.fail(desc.clone(), format!("process panicked: {}", last_panic()), None),
+		}
+		// landmarks, stated directly: unity pass band, corner gain 1/k at the requested frequency
+		if let Some((hs, _)) = measure_ir(cx, &d, sr, n, &[fc, 1e-3]) {
+			let (hc, h0) = (hs[0].abs(), hs[1].abs());
+			let want_c = if mode == 3 { 0.0 } else { 1.0 / k };
+			if !close(hc, want_c, 2e-3, 3e-4) {
+				s.fail(desc.clone(), format!("gain at the requested cutoff {fc:.3} Hz is {hc:.6}, the design has {want_c:.6} (= 1/k, k = {k:.4})"), None);
+			}
+			let want_0 = if mode == 0 || mode == 3 { 1.0 } else { 0.0 };
+			if !close(h0, want_0, 1e-3, 3e-4) {
+				s.fail(desc.clone(), format!("gain at DC is {h0:.6}, the design has {want_0}"), None);
+			}
+		}
+	}
+	// steady-state sine measurements (direct), a subset
+	for i in 0..n_sine {
+		let sr = *rng.pick(&RATES);
+		let ny = sr as f64 / 2.0;
+		let fc = 200.0 * (ny * 0.8 / 200.0).powf(rng.unit_f64());
+		let res = rng.unit_f64() * 0.9;
+		let k = 2.0 - 1.9 * res;
+		let mode = (i % 4) as u8;
+		let d = Filter { mode, cutoff: fc, res, mix: 1.0 };
+		let desc = format!("{:?} @ {} Hz", d, sr);
+		let f = match i % 3 {
+			0 => fc,
+			1 => 10.0 * (ny / 10.0).powf(rng.unit_f64()),
+			_ => fc * (0.25 + rng.unit_f64() * 3.0),
+		}
+		.min(ny * 0.98)
+		.max(10.0);
+		let warm = ir_len(sr, fc, k).min(400_000);
+		s.eval_only("mon_filter_response_sine");
+		if let Some(h) = measure_sine(cx, &d, sr, f, warm, 4096) {
+			check_response(s, &mut st, "steady-state sine", &desc, f, h, spec_filter(mode, fc, k, sr as f64, f), 1e-3, 2e-4);
+		}
+	}
+	// wet/dry: H sqrt(m) + sqrt(1 - m)
+	for i in 0..n_sine / 2 {
+		let sr = *rng.pick(&RATES);
+		let fc = 1000.0;
+		let mix = rng.unit_f64() as f32;
+		let mode = (i % 4) as u8;
+		let d = Filter { mode, cutoff: fc, res: 0.3, mix };
+		let k = 2.0 - 1.9 * 0.3;
+		let probes = [100.0, 1000.0, 3000.0];
+		s.eval_only("mon_filter_response_mix");
+		if let Some((hs, _)) = measure_ir(cx, &d, sr, ir_len(sr, fc, k), &probes) {
+			let (ws, ds) = mixw(mix);
+			for (f, h) in probes.iter().zip(hs.iter()) {
+				let spec = spec_filter(mode, fc, k, sr as f64, *f).scale(ws).add(ONE.scale(ds));
+				check_response(s, &mut st, "mix", &format!("{:?} @ {} Hz", d, sr), *f, *h, spec, 1e-3, 2e-4);
+			}
+		}
+	}
+	s.notes.push(format!("filter: {} measured responses compared with the prototype + bilinear transform; worst |H_meas - H_spec| / (|H_spec| + 0.2) = {:.3e} at {}", st.count, st.worst_rel, st.worst_at));
+}
+
+fn sec_eq_response(s: &mut Session, cx: &Ctx, rng: &mut Rng, n_cfg: usize) {
+	let mut st = RespStats { worst_rel: 0.0, worst_at: String::new(), count: 0 };
+	for i in 0..n_cfg {
+		let sr = if i < RATES.len() { RATES[i] } else { gen_sr(rng) };
+		let ny = sr as f64 / 2.0;
+		let fc = (40.0 * (ny * 0.8 / 40.0).powf(rng.unit_f64())).max(sr as f64 * 2e-4);
+		let gain = match i % 5 {
+			0 => 6.0,
+			1 => -12.0,
+			_ => (-24.0 + rng.unit_f64() * 48.0) as f32,
+		};
+		let q = match i % 3 {
+			0 => 0.7071,
+			_ => 0.3 + rng.unit_f64() * 6.0,
+		};
+		let kind = (i % 3) as u8;
+		let d = Eq { kind, freq: fc, gain, q };
+		let desc = format!("{:?} @ {} Hz", d, sr);
+		let a = 10f64.powf(gain as f64 / 40.0);
+		// slowest pole: damping 1/(Q A) for the bell, 1/Q at a shifted corner for the shelves
+		let k_eff = if kind == 0 { 1.0 / (q * a) } else { 1.0 / q };
+		let fc_eff = match kind {
+			0 => fc,
+			1 => fc / a.sqrt().max(1.0),
+			_ => fc * a.sqrt().min(1.0),
+		};
+		let n = ir_len(sr, fc_eff.max(5.0), k_eff.min(2.0));
+		let probes = probe_freqs(rng, sr, fc, 6);
+		s.eval_only("mon_eq_response_ir");
+		match measure_ir(cx, &d, sr, n, &probes) {
+			Some((hs, tail)) => {
+				if !(tail <= 1e-6) {
+					s.notes.push(format!("{desc}: impulse response not decayed after {n} frames (tail {tail:e}); response not compared"));
+					continue;
+				}
+				for (f, h) in probes.iter().zip(hs.iter()) {
+					check_response(s, &mut st, "impulse-response DFT", &desc, *f, *h, spec_eq(kind, fc, gain as f64, q, sr as f64, *f), 1e-3, 2e-4);
+				}
+			}
+			None => s.fail(desc.clone(), format!("process panicked: {}", last_panic()), None),
+		}
+		// the requested gain, stated directly: bell centre / shelf plateau = 10^(dB/20), unity at the far side
+		let want = 10f64.powf(gain as f64 / 20.0);
+		let far_lo = 1e-3;
+		let far_hi = ny * 0.99999;
+		if let Some((hs, _)) = measure_ir(cx, &d, sr, n, &[fc, far_lo, far_hi]) {
+			let (hc, hl, hh) = (hs[0].abs(), hs[1].abs(), hs[2].abs());
+			let (wl, wh) = match kind {
+				0 => (1.0, 1.0),
+				1 => (want, 1.0),
+				_ => (1.0, want),
+			};
+			if kind == 0 && !close(hc, want, 2e-3, 1e-4) {
+				s.fail(desc.clone(), format!("bell gain at the requested centre {fc:.3} Hz is {hc:.6}, requested {gain} dB = {want:.6}"), None);
+			}
+			if kind != 0 && !close(hc, want.sqrt(), 2e-3, 1e-4) {
+				s.fail(desc.clone(), format!("shelf gain at the requested corner {fc:.3} Hz is {hc:.6}, the design has half the dB gain there = {:.6}", want.sqrt()), None);
+			}
+			if !close(hl, wl, 2e-3, 1e-4) {
+				s.fail(desc.clone(), format!("gain at DC is {hl:.6}, the design has {wl:.6}"), None);
+			}
+			if !close(hh, wh, 2e-3, 1e-4) {
+				s.fail(desc.clone(), format!("gain next to Nyquist is {hh:.6}, the design has {wh:.6}"), None);
+			}
+		}
+	}
+	s.notes.push(format!("EQ: {} measured responses compared with the cookbook prototypes + bilinear transform; worst |H_meas - H_spec| / (|H_spec| + 0.2) = {:.3e} at {}", st.count, st.worst_rel, st.worst_at));
+}
+
+// ------------------------------------------------------------------ reverb: independent Freeverb reference
+
+/// Freeverb as its reference describes it (Jezar at Dreampoint; J. O. Smith, PASP "Freeverb"), in f64,
+/// with delay lines as queues (push newest, pop oldest) rather than indexed arrays.
+struct RefComb {
+	line: std::collections::VecDeque<f64>,
+	store: f64,
+}
+impl RefComb {
+	fn new(n: usize) -> Self {
+		RefComb { line: std::iter::repeat(0.0).take(n).collect(), store: 0.0 }
+	}
+	fn process(&mut self, x: f64, feedback: f64, damp: f64) -> f64 {
+		let out = self.line.pop_front().unwrap();
+		self.store = out * (1.0 - damp) + self.store * damp;
+		self.line.push_back(x + self.store * feedback);
+		out
+	}
+}
+struct RefAllpass {
+	line: std::collections::VecDeque<f64>,
+}
+impl RefAllpass {
+	fn new(n: usize) -> Self {
+		RefAllpass { line: std::iter::repeat(0.0).take(n).collect() }
+	}
+	fn process(&mut self, x: f64) -> f64 {
+		let bo = self.line.pop_front().unwrap();
+		self.line.push_back(x + bo * 0.5);
+		bo - x
+	}
+}
+const FV_COMBS: [u64; 8] = [1116, 1188, 1277, 1356, 1422, 1491, 1557, 1617];
+const FV_ALLPASSES: [u64; 4] = [556, 441, 341, 225];
+const FV_SPREAD: u64 = 23;
+fn fv_len(tuning: u64, sr: u32) -> usize {
+	((tuning * sr as u64 / 44100) as usize).max(1)
+}
+fn ref_freeverb(sr: u32, fb: f64, damp: f64, width: f64, mix: f32, input: &[Frame]) -> Vec<(f64, f64)> {
+	let mut cl: Vec<RefComb> = FV_COMBS.iter().map(|t| RefComb::new(fv_len(*t, sr))).collect();
+	let mut cr: Vec<RefComb> = FV_COMBS.iter().map(|t| RefComb::new(fv_len(*t + FV_SPREAD, sr))).collect();
+	let mut al: Vec<RefAllpass> = FV_ALLPASSES.iter().map(|t| RefAllpass::new(fv_len(*t, sr))).collect();
+	let mut ar: Vec<RefAllpass> = FV_ALLPASSES.iter().map(|t| RefAllpass::new(fv_len(*t + FV_SPREAD, sr))).collect();
+	// the implementation holds feedback, damping and width as f32
+	let (fb, damp, width) = (fb as f32 as f64, damp as f32 as f64, width as f32 as f64);
+	let (ws, ds) = mixw(mix);
+	let wet1 = width / 2.0 + 0.5;
+	let wet2 = (1.0 - width) / 2.0;
+	let mut out = vec![];
+	for f in input {
+		let x = (f.left as f64 + f.right as f64) * 0.015f32 as f64;
+		let (mut l, mut r) = (0.0, 0.0);
+		for c in cl.iter_mut() {
+			l += c.process(x, fb, damp);
+		}
+		for c in cr.iter_mut() {
+			r += c.process(x, fb, damp);
+		}
+		for a in al.iter_mut() {
+			l = a.process(l);
+		}
+		for a in ar.iter_mut() {
+			r = a.process(r);
+		}
+		let (ol, or) = (l * wet1 + r * wet2, r * wet1 + l * wet2);
+		out.push((ol * ws + f.left as f64 * ds, or * ws + f.right as f64 * ds));
+	}
+	out
+}
+
+fn sec_reverb(s: &mut Session, cx: &Ctx, rng: &mut Rng, n_cases: usize, n_ref: usize, n_decay: usize) {
+	// --- the reference network evaluated in binary32 by coqc, bit for bit (short lines: very low rates)
+	for i in 0..n_cases {
+		let sr = *rng.pick(&[441u32, 500, 620, 700, 882]);
+		let (fb, damp, width) = match i % 4 {
+			0 => (0.9, 0.1, 1.0),
+			1 => (0.5, 0.0, 0.0),
+			_ => (rng.unit_f64(), rng.unit_f64(), rng.unit_f64()),
+		};
+		let mix = if i % 3 == 0 { 1.0 } else { rng.unit_f64() as f32 };
+		let n = 36;
+		let mut input = if i % 2 == 0 { vec![Frame::ZERO; n] } else { noise(rng, n, 0.8) };
+		input[0] = Frame::new(1.0, 0.5);
+		let d = Reverb { fb, damp, width, mix };
+		let Some(out) = run_ok(s, cx, &d, sr, &input) else { continue };
+		let mut obs = vec![];
+		for f in &out {
+			obs.push(obs32(f.left));
+			obs.push(obs32(f.right));
+		}
+		let term = format!("CFreeverb {} {} {} {} {} {}", sr, f64_bits_z(fb), f64_bits_z(damp), f64_bits_z(width), f32_bits_z(mix), frames_term(&input));
+		let k = key_of(&term);
+		s.case("reverb_is_freeverb_b32", term, &obs, k);
+	}
+	// --- real rates: sample-by-sample against the f64 reference, arrival frames of the first reflections
+	let mut worst = 0.0f64;
+	for i in 0..n_ref {
+		let sr = if i < RATES.len() { RATES[i] } else { gen_sr(rng) };
+		let (fb, damp, width) = match i % 4 {
+			0 => (0.9, 0.1, 1.0),
+			1 => (0.0, 0.0, 1.0),
+			_ => (rng.unit_f64() * 0.98, rng.unit_f64(), rng.unit_f64()),
+		};
+		let mix = if i % 2 == 0 { 1.0 } else { rng.unit_f64() as f32 };
+		let n = (sr as usize / 6).max(6000);
+		let mut input = if i % 3 == 2 { noise(rng, n, 0.5) } else { vec![Frame::ZERO; n] };
+		input[0] = Frame::new(1.0, 0.5);
+		let d = Reverb { fb, damp, width, mix };
+		let desc = format!("{:?} @ {} Hz", d, sr);
+		let Some(out) = run_ok(s, cx, &d, sr, &input) else { continue };
+		s.eval_only("mon_reverb_vs_reference");
+		let reference = ref_freeverb(sr, fb, damp, width, mix, &input);
+		let peak = reference.iter().map(|p| p.0.abs().max(p.1.abs())).fold(1e-9, f64::max);
+		for j in 0..n {
+			let (el, er) = ((out[j].left as f64 - reference[j].0).abs(), (out[j].right as f64 - reference[j].1).abs());
+			worst = worst.max(el.max(er) / peak);
+			if !(el <= 2e-4 * peak && er <= 2e-4 * peak) {
+				s.fail(desc.clone(), format!("frame {j}: output ({}, {}) but the Freeverb reference network gives ({:.9}, {:.9}) (peak {peak:.4})", out[j].left, out[j].right, reference[j].0, reference[j].1), None);
+				break;
+			}
+		}
+		// first reflections of a lone impulse, fully wet, full width: the shortest comb of each channel
+		if i % 3 != 2 && mix == 1.0 && width == 1.0 {
+			let fl = out.iter().position(|f| f.left != 0.0);
+			let fr = out.iter().position(|f| f.right != 0.0);
+			let (wl, wr) = (fv_len(1116, sr), fv_len(1116 + 23, sr));
+			if fl != Some(wl) || fr != Some(wr) {
+				s.fail(desc.clone(), format!("first reflection at frames {:?} / {:?}, Freeverb's shortest combs are 1116 and 1139 samples at 44100 Hz = {} / {} frames here", fl, fr, wl, wr), None);
+			} else if !close(out[wl].left as f64, 0.015 * 1.5, 1e-5, 0.0) {
+				s.fail(desc.clone(), format!("first reflection has amplitude {}, reference: input gain 0.015 x (L + R) = {}", out[wl].left, 0.015 * 1.5), None);
+			}
+		}
+	}
+	s.notes.push(format!("reverb: largest deviation from the f64 Freeverb reference / peak = {worst:.3e} (bound 2e-4)"));
+	// --- decay for feedback < 1: after the input stops the tail dies away; for feedback = 1 and no damping it does not
+	for i in 0..n_decay {
+		let sr = *rng.pick(&[8000u32, 11025, 16000]);
+		let fb = match i % 3 {
+			0 => 0.5,
+			1 => 0.8,
+			_ => 0.2 + rng.unit_f64() * 0.65,
+		};
+		let damp = rng.unit_f64() * 0.6;
+		let d = Reverb { fb, damp, width: 1.0, mix: 1.0 };
+		let desc = format!("{:?} @ {} Hz", d, sr);
+		let longest = fv_len(1617 + 23, sr);
+		// loop gain per trip through a comb is at most fb: -60 dB after ln(1000)/ln(1/fb) trips
+		let trips = (1000f64.ln() / (1.0 / fb).ln()).ceil() as usize + 2;
+		let n = longest * (trips + 1) * 2 + 4 * fv_len(579, sr);
+		let burst = 200;
+		let mut input = vec![Frame::ZERO; n];
+		for f in input.iter_mut().take(burst) {
+			*f = Frame::new(unit32(rng), unit32(rng));
+		}
+		let Some(out) = run_ok(s, cx, &d, sr, &input) else { continue };
+		s.eval_only("mon_reverb_decays");
+		let w = longest * 2;
+		let peaks: Vec<f64> = out.chunks(w).map(|c| c.iter().map(|f| (f.left as f64).abs().max((f.right as f64).abs())).fold(0.0, f64::max)).collect();
+		let first = peaks[0].max(peaks[1]);
+		let last = *peaks.last().unwrap();
+		if !(last <= 2e-3 * first) {
+			s.fail(desc.clone(), format!("tail does not decay: peak {first:e} at the start, still {last:e} after {n} frames ({trips} comb round trips for -60 dB)"), None);
+		}
+		// the envelope keeps falling: six windows (>= 12 round trips of every comb, loop gain <= fb each) later the
+		// peak is lower (the sum of eight combs of different lengths beats, so neighbouring windows may not be ordered)
+		for j in 6..peaks.len() {
+			if !(peaks[j] <= peaks[j - 6] + 1e-9) {
+				s.fail(desc.clone(), format!("tail does not keep decaying: window {j} peak {:e}, six windows earlier {:e}", peaks[j], peaks[j - 6]), None);
+				break;
+			}
+		}
+	}
+}
+
+// ------------------------------------------------------------------ compressor
+
+/// gain change in dB per frame measured on the implementation: output / input on a constant-level signal
+fn sec_compressor(s: &mut Session, cx: &Ctx, rng: &mut Rng, n_cfg: usize) {
+	let mut worst_db = 0.0f64;
+	for i in 0..n_cfg {
+		let sr = gen_sr(rng);
+		let dt = 1.0 / sr as f64;
+		let thr = -(6.0 + rng.unit_f64() * 34.0);
+		let ratio = *rng.pick(&[2.0, 4.0, 8.0, 1.5, 20.0, 3.0]);
+		let att = Duration::from_micros(rng.range(200, 30_000) as u64);
+		let rel = Duration::from_micros(rng.range(5_000, 300_000) as u64);
+		let mk = if i % 2 == 0 { 0.0 } else { (-6.0 + rng.unit_f64() * 12.0) as f32 };
+		let d = Comp { thr, ratio, att, rel, mk, mix: 1.0 };
+		let desc = format!("{:?} @ {} Hz", d, sr);
+		let mkg = 10f64.powf(mk as f64 / 20.0);
+		// --- below the threshold: unchanged up to the make-up gain
+		{
+			let top = 10f64.powf((thr - 0.5) / 20.0) as f32;
+			let input: Vec<Frame> = (0..2000).map(|_| Frame::new(unit32(rng) * top, unit32(rng) * top)).collect();
+			if let Some(out) = run_ok(s, cx, &d, sr, &input) {
+				s.eval_only("mon_compressor_below_threshold");
+				for (x, y) in input.iter().zip(out.iter()) {
+					if !(close(y.left as f64, x.left as f64 * mkg, 1e-6, 1e-30) && close(y.right as f64, x.right as f64 * mkg, 1e-6, 1e-30)) {
+						s.fail(desc.clone(), format!("signal below the threshold changed: in {:?} out {:?} (make-up gain {mkg})", x, y), None);
+						break;
+					}
+				}
+			}
+		}
+		// --- constant level above the threshold (attack), then a lower level (release)
+		let l1 = thr + 3.0 + rng.unit_f64() * (-thr - 3.0).max(1.0); // dB, above the threshold, at most ~0 dBFS
+		let l2 = if i % 2 == 0 { thr - 10.0 } else { thr + (l1 - thr) * 0.3 };
+		let (a1, a2) = (10f64.powf(l1 / 20.0) as f32, 10f64.powf(l2 / 20.0) as f32);
+		let n1 = ((att.as_secs_f64() * 6.0 / dt) as usize).clamp(200, 400_000);
+		let n2 = ((rel.as_secs_f64() * 4.0 / dt) as usize).clamp(200, 600_000);
+		let mut input = vec![];
+		for j in 0..n1 {
+			let sg = if j % 2 == 0 { 1.0 } else { -1.0 };
+			input.push(Frame::new(a1 * sg, a1));
+		}
+		for j in 0..n2 {
+			let sg = if j % 3 == 0 { -1.0 } else { 1.0 };
+			input.push(Frame::new(a2 * sg, a2));
+		}
+		let Some(out) = run_ok(s, cx, &d, sr, &input) else { continue };
+		s.eval_only("mon_compressor_convergence");
+		// closed form (the levels the detector sees are those of the rounded f32 amplitudes)
+		let (la, lb) = (20.0 * (a1 as f64).log10(), 20.0 * (a2 as f64).log10());
+		let (o1, o2) = ((la - thr).max(0.0), (lb - thr).max(0.0));
+		let s_att = (-dt / att.as_secs_f64()).exp();
+		let s_rel = (-dt / rel.as_secs_f64()).exp();
+		let slope = 1.0 / ratio - 1.0;
+		let e_switch = o1 + s_att.powi(n1 as i32) * (0.0 - o1);
+		let mut ok = true;
+		for j in 0..input.len() {
+			let env = if j < n1 {
+				o1 + s_att.powf((j + 1) as f64) * (0.0 - o1)
+			} else {
+				let m = (j - n1 + 1) as f64;
+				// falling towards o2 < e_switch: release
+				o2 + s_rel.powf(m) * (e_switch - o2)
+			};
+			let want_db = env * slope;
+			let got_db = 20.0 * ((out[j].left as f64 / input[j].left as f64) / mkg).abs().log10();
+			let err = (got_db - want_db).abs();
+			worst_db = worst_db.max(err);
+			if !(err <= 0.02 + 2e-3 * want_db.abs()) {
+				s.fail(
+					desc.clone(),
+					format!(
+						"frame {j} ({}): gain change {got_db:.5} dB, closed form (o + s^n (e0 - o)) (1/ratio - 1) = {want_db:.5} dB [level {:.3} dB, threshold {thr:.3}, s_attack = exp(-dt/{:?}), s_release = exp(-dt/{:?})]",
+						if j < n1 { "attack" } else { "release" },
+						if j < n1 { la } else { lb },
+						att,
+						rel
+					),
+					None,
+				);
+				ok = false;
+				break;
+			}
+		}
+		if ok {
+			// the limit: (level - threshold) (1 - 1/ratio) dB of gain reduction once settled
+			let settled = 20.0 * ((out[n1 - 1].left as f64 / input[n1 - 1].left as f64) / mkg).abs().log10();
+			let want = -(la - thr) * (1.0 - 1.0 / ratio);
+			if !((settled - want).abs() <= 0.01 * want.abs() + 0.02) {
+				s.fail(desc.clone(), format!("after 6 attack time constants the gain reduction is {settled:.4} dB, static curve (level - threshold)(1 - 1/ratio) = {want:.4} dB"), None);
+			}
+			// time constant: after one attack time the remaining distance is 1/e
+			let n_tau = (att.as_secs_f64() / dt).round() as usize;
+			if n_tau >= 50 && n_tau < n1 {
+				let g = 20.0 * ((out[n_tau - 1].left as f64 / input[n_tau - 1].left as f64) / mkg).abs().log10();
+				let frac = 1.0 - g / (o1 * slope);
+				if !((frac - (-1.0f64).exp()).abs() <= 0.01) {
+					s.fail(desc.clone(), format!("after one attack time ({:?} = {n_tau} frames) the remaining distance to the target is {frac:.4} of the total, a time constant means 1/e = 0.3679", att), None);
+				}
+			}
+			let n_tau = (rel.as_secs_f64() / dt).round() as usize;
+			if n_tau >= 50 && n_tau < n2 && (e_switch - o2).abs() > 0.5 {
+				let j = n1 + n_tau - 1;
+				let g = 20.0 * ((out[j].left as f64 / input[j].left as f64) / mkg).abs().log10();
+				let frac = (g / slope - o2) / (e_switch - o2);
+				if !((frac - (-1.0f64).exp()).abs() <= 0.01) {
+					s.fail(desc.clone(), format!("after one release time ({:?} = {n_tau} frames) the remaining distance to the target is {frac:.4} of the total, a time constant means 1/e = 0.3679", rel), None);
+				}
+			}
+		}
+	}
+	s.notes.push(format!("compressor: largest |measured - closed form| gain change over all frames = {worst_db:.3e} dB (bound 0.02 dB + 0.2 %)"));
+}
+
 pub fn run(args: &Args) {
 	let mut rng = Rng::new(args.seed ^ 0xC14);
 	let mul = args.budget_mul as usize;
@@ -625,7 +1232,11 @@ pub fn run(args: &Args) {
 	sec_volume(&mut s, &cx, &mut rng, 40 * big);
 	sec_panning(&mut s, &cx, &mut rng, 40 * big);
 	sec_distortion(&mut s, &cx, &mut rng, 60 * big);
-	sec_delay(&mut s, &cx, &mut rng, 30 * big, 60 * big);
+	sec_delay(&mut s, &cx, &mut rng, 30 * big, 300 * big);
 	sec_traces(&mut s, &cx, &mut rng, 6 * big);
+	sec_filter_response(&mut s, &cx, &mut rng, 400 * big, 100 * big);
+	sec_eq_response(&mut s, &cx, &mut rng, 300 * big);
+	sec_reverb(&mut s, &cx, &mut rng, 12 * big, 40 * big, 12 * big);
+	sec_compressor(&mut s, &cx, &mut rng, 150 * big);
 	s.finish();
 }
